@@ -1979,6 +1979,10 @@ class Interp:
             return v
         if n == "__class__" and fr.cls is not None:
             return fr.cls
+        import builtins as _bi
+        if hasattr(_bi, n):
+            # a real built-in that the evaluator has no model of: no verdict, never an exception of the interpreted program
+            raise Unknown(f"built-in `{n}` is not modelled")
         raise Raised(self.w.B.mkexc("NameError", f"name {n!r} is not defined"))
 
     def ex_NamedExpr(self, e, fr):
